@@ -12,8 +12,8 @@ LEVEL = "proof"
 LEAN_MODULES = ['Sonic.Props.C20']
 REQUIRED_THEOREMS = ["Sonic.Props.C20." + n for n in ["C20_spec_props", "C20_tree_merge", "C20_parseLazy", "C20_serialize", "C20_model_eq_spec",
                                                          "C20_key_spelling", "C20_no_member_lost"]]
-CONFIGS = [("avx2", "prod"), ("sse", "prod"), ("avx2", "san"), ("sse", "san")]
-CONFIGS_THOROUGH = CONFIGS + [("dyn", "prod")]
+CONFIGS = [("avx2", "prod"), ("sse", "prod"), ("avx2", "san"), ("sse", "san"), ("dyn", "prod")]
+CONFIGS_THOROUGH = CONFIGS + [("dyn", "san")]
 ENV = {"MALLOC_PERTURB_": "243"}
 RULE = ("pairs of valid duplicate-free JSON texts: all 7x7 kind combinations at the root and nested, objects of 0..40 members, source derived "
         "from the target (shared / new / omitted keys, re-kinded values), keys with every escape kind and \\u spellings of ASCII letters so "
@@ -54,7 +54,7 @@ def generate(rng, tier):
         if rng.random() < 0.7 and not (isinstance(tv, tuple) and tv[0] == "o"):
             tv = ("o", [(b"a", tv), (b"b", MG.gen(rng, 1))])
         sv = MG.derive(rng, tv) if rng.random() < 0.8 else MG.gen(rng)
-        add(MG.text(rng, tv), MG.text(rng, sv), "derived")
+        add(MG.doc(rng, tv), MG.doc(rng, sv), "derived")
     return cases
 
 
